@@ -1,0 +1,52 @@
+//go:build verif
+
+// Contracts for the gvc verifier (/verif). This file contains comments only:
+// with the "verif" build tag off it is not compiled, with it on it adds no code.
+
+package encoding
+
+// ---------------------------------------------------------------------------
+// Decoding scalar JSON values (C19): a string is taken as is, a boolean becomes true/false, null the empty
+// value; a number becomes an integer literal only if it is a whole number within int64 (so the conversion is
+// exact), otherwise its exact decimal form; anything else is an error. Decoding never panics.
+//@ func decodeValue
+//@   nopanic
+//@   ensures implies(is(val, string), result1 == nil && result0 == val.(string))
+//@   ensures implies(is(val, bool), result1 == nil && result0 == ite(val.(bool), "true", "false"))
+//@   ensures implies(val == nil, result1 == nil && result0 == "")
+//@   ensures implies(is(val, float64), result1 == nil)
+//@   ensures implies(!is(val, string) && !is(val, bool) && !is(val, float64) && val != nil, result1 != nil)
+
+// Module-name stack of the RFC 7951 writer (section 4: a member name is qualified with its module name iff
+// the module differs from that of the parent node).
+//@ func (*JSONWriter).PushName
+//@   requires jw != nil && sn != nil
+//@   modifies jw.moduleName
+//@   modifies elems(jw.moduleName)
+//@   ensures len(jw.moduleName) == old(len(jw.moduleName)) + 1 && jw.moduleName[len(jw.moduleName)-1] == node_module(sn)
+//@   ensures forall(i, 0, len(jw.moduleName)-1, jw.moduleName[i] == old(jw.moduleName[i]))
+//@   ensures result == ite(old(len(jw.moduleName)) > 0 && node_module(sn) == old(jw.moduleName[len(jw.moduleName)-1]), "", node_module(sn))
+//@ func (*JSONWriter).PopName
+//@   requires jw != nil
+//@   modifies jw.moduleName
+//@   nopanic
+//@   ensures implies(old(len(jw.moduleName)) > 0, jw.moduleName == old(jw.moduleName[:len(jw.moduleName)-1]))
+//@   ensures implies(old(len(jw.moduleName)) == 0, jw.moduleName == old(jw.moduleName))
+//@ func (*JSONWriter).CurrentModuleName
+//@   requires jw != nil
+//@   nopanic
+//@   ensures implies(len(jw.moduleName) == 0, result == "")
+//@   ensures implies(len(jw.moduleName) == 1, result == jw.moduleName[0])
+//@   ensures implies(len(jw.moduleName) >= 2, result == ite(jw.moduleName[len(jw.moduleName)-1] != jw.moduleName[len(jw.moduleName)-2], jw.moduleName[len(jw.moduleName)-1], ""))
+
+// Key of a list entry: taken from the entry's key child, validated by the key leaf's type; malformed input
+// (no key, a key without scalar value) is an error, never a panic.
+//@ func (unserialized).name
+//@   nopanic
+//@ func (unserialized).values
+//@ func (unserialized).unserializedChildren
+//@   params path sn
+//@ func (unserialized).validate
+// Lists always have at least one key in this implementation (the parser requires a key statement).
+//@ func getChildName
+//@   requires node != nil && sn != nil
